@@ -1,10 +1,175 @@
-/- driver for C19 : to be filled in (stub keeps Main.lean compiling) -/
+/- driver for C19 (discrete measures), Float instantiation of Model/Discrete -/
 import MysticVerif.Basic.Proto
+import MysticVerif.Model.Dsl
+import MysticVerif.Model.Discrete
 
 namespace MysticVerif.DrvC19
-open MysticVerif
+open MysticVerif MysticVerif.Discrete MysticVerif.Dsl
+
+def finf : Float := 1.0 / 0.0
+def fnan : Float := 0.0 / 0.0
+
+def asFloatss? (v : Val) : Option (List (List Float)) := do
+  let l ← v.asList?
+  l.mapM Val.asFloats?
+
+/-- a measure travels as `(W X)` (two float lists of equal length) -/
+def parseMeasure (v : Val) : Option (Measure Float) :=
+  match v with
+  | .list [w, x] => do
+    let ws ← w.asFloats?
+    let xs ← x.asFloats?
+    if ws.length = xs.length then some (List.zipWith (fun a b => ⟨a, b⟩) ws xs) else none
+  | _ => none
+
+def parsePM (v : Val) : Option (PM Float) := do
+  let l ← v.asList?
+  l.mapM parseMeasure
+
+def pM (m : Measure Float) : String := "(" ++ pFs (mweights m) ++ " " ++ pFs (mpositions m) ++ ")"
+def pPM (c : PM Float) : String := "(" ++ " ".intercalate (c.map pM) ++ ")"
+def pErr : Err → String
+  | .index => "err index"
+  | .value => "err value"
+def pOF : Option Float → String
+  | some f => pF f
+  | none => "none"
+
+def getF (args : List Val) (k : String) : Option Float := (kw? args k).bind Val.asFloat?
+def getFs (args : List Val) (k : String) : Option (List Float) := (kw? args k).bind Val.asFloats?
+def getFss (args : List Val) (k : String) : Option (List (List Float)) := (kw? args k).bind asFloatss?
+def getNs (args : List Val) (k : String) : Option (List Nat) := (kw? args k).bind Val.asNats?
+def getPM (args : List Val) (k : String) : Option (PM Float) := (kw? args k).bind parsePM
+
+def evalF (e : Expr) (v : List Float) : Float := (e.eval v).getD fnan
 
 def handle : Handler
+  | .sym "flatten" :: args => Id.run do
+    let some c := getPM args "c" | return "bad-op"
+    return s!"ok y={pFs (flatten c)}"
+  | .sym "unflatten" :: args => Id.run do
+    let some p := getFs args "params" | return "bad-op"
+    let some n := getNs args "npts" | return "bad-op"
+    match unflatten p n with
+    | some c => return s!"ok c={pPM c}"
+    | none => return "err index"
+  | .sym "load" :: args => Id.run do
+    let some c := getPM args "c" | return "bad-op"
+    let some p := getFs args "params" | return "bad-op"
+    let some n := getNs args "npts" | return "bad-op"
+    match load c p n with
+    | some c => return s!"ok c={pPM c}"
+    | none => return "err index"
+  | .sym "update" :: args => Id.run do
+    let some c := getPM args "c" | return "bad-op"
+    let some p := getFs args "params" | return "bad-op"
+    match update c p with
+    | some c => return s!"ok c={pPM c}"
+    | none => return "err index"
+  | .sym "sload" :: args => Id.run do
+    let some c := getPM args "c" | return "bad-op"
+    let some v := getFs args "values" | return "bad-op"
+    let some p := getFs args "params" | return "bad-op"
+    let some n := getNs args "npts" | return "bad-op"
+    match sload ⟨c, v⟩ p n with
+    | some s => return s!"ok c={pPM s.pm} values={pFs s.values}"
+    | none => return "err index"
+  | .sym "supdate" :: args => Id.run do
+    let some c := getPM args "c" | return "bad-op"
+    let some v := getFs args "values" | return "bad-op"
+    let some p := getFs args "params" | return "bad-op"
+    match supdate ⟨c, v⟩ p with
+    | some s => return s!"ok c={pPM s.pm} values={pFs s.values}"
+    | none => return "err index"
+  | .sym "sflatten" :: args => Id.run do
+    let some c := getPM args "c" | return "bad-op"
+    let some v := getFs args "values" | return "bad-op"
+    let some a := (kw? args "all").bind Val.asBool? | return "bad-op"
+    return s!"ok y={pFs (sflatten ⟨c, v⟩ a)}"
+  | .sym "mkscen" :: args => Id.run do
+    let some c := getPM args "c" | return "bad-op"
+    let some v := getFs args "values" | return "bad-op"
+    match mkScen c v with
+    | some s => return s!"ok c={pPM s.pm} values={pFs s.values}"
+    | none => return "err index"
+  | .sym "compose" :: args => Id.run do
+    let some x := getFss args "x" | return "bad-op"
+    let some w := getFss args "w" | return "bad-op"
+    match compose x w with
+    | some c => return s!"ok c={pPM c}"
+    | none => return "err index"
+  | .sym "composeu" :: args => Id.run do
+    let some x := getFss args "x" | return "bad-op"
+    match composeU x with
+    | some c => return s!"ok c={pPM c}"
+    | none => return "err index"
+  | .sym "decompose" :: args => Id.run do
+    let some c := getPM args "c" | return "bad-op"
+    let xw := decompose c
+    return s!"ok x={pFss xw.1} w={pFss xw.2}"
+  | .sym "nested" :: args => Id.run do
+    let some p := getFs args "params" | return "bad-op"
+    let some n := getNs args "npts" | return "bad-op"
+    let wx := nestedSplit p n
+    return s!"ok p={pFss (nested p n)} flat={pFs (flat (nested p n))} w={pFss wx.1} x={pFss wx.2}"
+  | .sym "pack" :: args => Id.run do
+    let some s := getFss args "s" | return "bad-op"
+    return s!"ok p={pFss (pack s)}"
+  | .sym "unpack" :: args => Id.run do
+    let some p := getFss args "p" | return "bad-op"
+    let some n := getNs args "npts" | return "bad-op"
+    match unpack p n with
+    | .ok s => return s!"ok s={pFss s}"
+    | .error e => return pErr e
+  | .sym "setpos" :: args => Id.run do
+    let some c := getPM args "c" | return "bad-op"
+    let some p := getFss args "p" | return "bad-op"
+    match setPositions c p with
+    | .ok c => return s!"ok c={pPM c}"
+    | .error e => return pErr e
+  | .sym "stats" :: args => Id.run do
+    let some c := getPM args "c" | return "bad-op"
+    let some e := (kw? args "f").bind parseExpr | return "bad-op"
+    let some tol := getF args "tol" | return "bad-op"
+    let f := evalF e
+    let sup := match support c tol with
+      | some l => pFss l
+      | none => "none"
+    return s!"ok weights={pFs (weights c)} positions={pFss (positions c)} npts={npts c} mass={pFs (mass c)} " ++
+      s!"expect={pF (expect finf c f)} expectvar={pF (expectVar finf c f)} pof={pF (pof c f)} " ++
+      s!"support={sup} sindex={pNs (supportIndex c tol)}"
+  | .sym "mstats" :: args => Id.run do
+    let some m := (kw? args "m").bind parseMeasure | return "bad-op"
+    return s!"ok mean={pF (centerMass finf m)} range={pOF (range m)} var={pF (variance finf m)} mass={pF (sumL (mweights m))}"
+  | .sym "mset" :: args => Id.run do
+    let some m := (kw? args "m").bind parseMeasure | return "bad-op"
+    let some which := (kw? args "which").bind Val.asSym? | return "bad-op"
+    let some v := getF args "v" | return "bad-op"
+    match which with
+    | "mean" => return s!"ok m={pM (setCenterMass finf m v)}"
+    | "range" =>
+      match setRange finf fnan m v with
+      | some m' => return s!"ok m={pM m'}"
+      | none => return "err value"
+    | "var" => return s!"ok m={pM (setVar finf fnan Float.sqrt m v)}"
+    | _ => return "bad-op"
+  | .sym "impose" :: args => Id.run do
+    let some n := getNs args "npts" | return "bad-op"
+    let some x := getFs args "x" | return "bad-op"
+    let some tr := (kw? args "tracking").bind Val.asList? | return "bad-op"
+    let some nw := (kw? args "noweight").bind Val.asList? | return "bad-op"
+    let parseGroup : Val → Option (Nat × List Nat) := fun v => do
+      let l ← v.asNats?
+      match l with
+      | i :: js => some (i, js)
+      | [] => none
+    let some tracking := tr.mapM (fun v => match v with
+      | .list (k :: gs) => do pure ((← k.asNat?), (← gs.mapM parseGroup))
+      | _ => none) | return "bad-op"
+    let some noweight := nw.mapM parseGroup | return "bad-op"
+    match imposeMeasure finf n tracking noweight x with
+    | some y => return s!"ok y={pFs y}"
+    | none => return "err index"
   | _ => "bad-op"
 
 end MysticVerif.DrvC19
